@@ -572,7 +572,9 @@ class PrecipitateModel (PrecipitateBase):
             growthRate = np.zeros(self.PBM[p].bins + 1)
             return growthRate, xEqAlpha, xEqBeta
 
-        growth_result = self.therm.getGrowthAndInterfacialComposition(xComp, T, dGs[p] * self.precipitateParameters[p].volume.Vm, self.PBM[p].PSDbounds, self.particleGibbs(phase=self.precipitateParameters[p].phase), precPhase=self.precipitateParameters[p].phase, removeCache=self.removeCache, searchDir = self._precBetaTemp[p])
+        #The Gibbs-Thomson contribution (particleGibbs) already contains the strain energy, so the chemical driving force
+        #   is used here. The recorded driving force (dGs) has the strain energy subtracted, which would count it twice
+        growth_result = self.therm.getGrowthAndInterfacialComposition(xComp, T, self._chemDGTemp[p], self.PBM[p].PSDbounds, self.particleGibbs(phase=self.precipitateParameters[p].phase), precPhase=self.precipitateParameters[p].phase, removeCache=self.removeCache, searchDir = self._precBetaTemp[p])
 
         #If two-phase equilibrium not found, two possibilities - precipitates are unstable or equilibrium calculations didn't converge
         #We try to avoid this as much as possible to where if precipitates are unstable, then attempt to get a growth rate from the nearest composition on the phase boundary
